@@ -956,7 +956,133 @@ def r06_17(ctx: Ctx, rule: str = "R06.17") -> None:
     ctx.floor(rule, n, 5, "typed constant comparisons in the read closure")
 
 
+class _Reject(Exception):
+    pass
+
+
+def _id_words(f: Func) -> Tuple[Optional[List[List[str]]], str]:
+    """the set of property-id words a sequential section reader ACCEPTS (returns normally on), by structural path enumeration over
+    its statements: the id variable is the name assigned from `<file>.read(1)`; `idvar == PROPERTY.X` / `!=` tests split on what is
+    known about the current id; every other test forks; loops that do not assign the id variable are skipped; raise rejects the path.
+    An id that is never pinned down on an accepted path is reported as '*' (anything accepted there)."""
+    idvars = {t.id for n in walk(f.node) if isinstance(n, ast.Assign) and isinstance(n.value, ast.Call) and attr_tail(n.value) == "read" and n.value.args
+              and isinstance(n.value.args[0], ast.Constant) and n.value.args[0].value == 1 for t in n.targets if isinstance(t, ast.Name)}
+    if len(idvars) != 1:
+        return None, f"id variable not unique ({sorted(idvars)})"
+    idv = next(iter(idvars))
+    accepted: List[List[str]] = []
+    budget = [4000]
+
+    def prop_of(e: ast.AST) -> Optional[str]:
+        return e.attr if isinstance(e, ast.Attribute) and isinstance(e.value, ast.Name) and e.value.id == "PROPERTY" else None
+
+    def close_sym(st):
+        if st["cur"] is not None:
+            st["word"].append(st["cur"]["eq"] if st["cur"]["eq"] is not None else "*")
+
+    def run_block(body: List[ast.stmt], st: dict, k):
+        """continuation-passing: k(st) is called for every way control falls out of the block."""
+        if budget[0] <= 0:
+            raise AnalysisError("id-word enumeration exceeded its path budget")
+        if not body:
+            return k(st)
+        s0, rest = body[0], body[1:]
+        cont = lambda st2: run_block(rest, st2, k)  # noqa: E731
+        if isinstance(s0, ast.Raise):
+            return
+        if isinstance(s0, ast.Return):
+            budget[0] -= 1
+            st = dict(st, word=list(st["word"]))
+            close_sym(st)
+            accepted.append(st["word"])
+            return
+        if isinstance(s0, ast.Assign) and any(isinstance(t, ast.Name) and t.id == idv for t in s0.targets):
+            st = dict(st, word=list(st["word"]))
+            close_sym(st)
+            st["cur"] = {"eq": None, "neq": set()}
+            return cont(st)
+        if isinstance(s0, (ast.For, ast.While)):
+            if any(isinstance(n, ast.Assign) and any(isinstance(t, ast.Name) and t.id == idv for t in n.targets) for n in ast.walk(s0)):
+                raise AnalysisError(f"{f.qname}: the id variable is re-read inside a loop (not a sequential section reader)")
+            # a raise inside the loop body only rejects some inputs of the same word; skipping the body keeps the accepted id words
+            return cont(st)
+        if isinstance(s0, ast.If):
+            t = s0.test
+            neg = False
+            if isinstance(t, ast.UnaryOp) and isinstance(t.op, ast.Not):
+                t, neg = t.operand, True
+            pid = None
+            if isinstance(t, ast.Compare) and len(t.ops) == 1 and isinstance(t.left, ast.Name) and t.left.id == idv and isinstance(t.ops[0], (ast.Eq, ast.NotEq)):
+                pid = prop_of(t.comparators[0])
+            if pid is not None and st["cur"] is not None:
+                want_eq = isinstance(t.ops[0], ast.Eq) != neg   # true arm means id == pid
+                cur = st["cur"]
+                arms = []
+                if cur["eq"] is not None:
+                    arms = [(cur["eq"] == pid) == want_eq]
+                elif pid in cur["neq"]:
+                    arms = [not want_eq]
+                else:
+                    arms = [True, False]
+                for arm in arms:
+                    st2 = dict(st, word=list(st["word"]), cur={"eq": cur["eq"], "neq": set(cur["neq"])})
+                    is_eq = (arm == want_eq)
+                    if cur["eq"] is None:
+                        if is_eq:
+                            st2["cur"]["eq"] = pid
+                        else:
+                            st2["cur"]["neq"].add(pid)
+                    run_block((s0.body if arm else s0.orelse), st2, cont)
+                return
+            # any other condition: both arms are possible
+            for arm_body in (s0.body, s0.orelse):
+                run_block(arm_body, dict(st, word=list(st["word"]), cur=None if st["cur"] is None else {"eq": st["cur"]["eq"], "neq": set(st["cur"]["neq"])}), cont)
+            return
+        if isinstance(s0, (ast.With, ast.Try)):
+            inner = s0.body
+            return run_block(inner + rest, st, k)
+        return cont(st)
+
+    def fall_off(st):
+        budget[0] -= 1
+        st = dict(st, word=list(st["word"]))
+        close_sym(st)
+        accepted.append(st["word"])
+
+    run_block(list(f.node.body), {"word": [], "cur": None}, fall_off)
+    uniq = sorted({tuple(w) for w in accepted})
+    return [list(w) for w in uniq], idv
+
+
+def r06_18(ctx: Ctx, rule: str = "R06.18") -> None:
+    """grammar conformance of the sequential section readers: the set of property-id words a reader accepts (returns normally on) is
+    exactly the format's - optional records in format order, closed by kEnd, nothing else; an id the reader never pins down ('*') means
+    unknown records are silently taken for something else."""
+    n = 0
+    for fq, want in sorted(spec7z.SECTION_WORDS.items()):
+        mod, qual = fq.split(":")
+        f = ctx.prog.func(mod, qual)
+        got, info = _id_words(f)
+        if got is None:
+            ctx.fail(rule, f, f.node, f"{fq}: section reader shape not recognised ({info})", construct=f"{qual} id words")
+            continue
+        n += 1
+        want_s = sorted(tuple(w) for w in want)
+        got_s = sorted(tuple(w) for w in got)
+        missing = [" ".join(w) for w in want_s if w not in got_s]
+        extra = [" ".join(w) for w in got_s if w not in want_s]
+        ctx.check(not missing and not extra, rule, f, f.node, f"{fq} accepts exactly the id words {[' '.join(w) for w in want_s]}",
+                  f"{fq} does not accept exactly the record sequences of the format: not accepted {missing or '-'}; accepted although not in the grammar {extra or '-'} "
+                  "('*' = any id): a conforming archive is refused, or a malformed / unknown record is parsed as something else",
+                  construct=f"{qual} id words")
+    ctx.floor(rule, n, 4, "sequential section readers")
+
+
 def run(ctx: Ctx) -> None:
+    from . import c10 as _c10
+    _c10.r10_11(ctx)  # kinds as the format assigns them (is_directory), under C06 too
+    shared.layout_agreement(ctx, "R06.19")
+    r06_18(ctx)
     r06_17(ctx)
     r06_16(ctx)
     r06_15(ctx)
